@@ -74,6 +74,11 @@ var psAnchors = map[string]bool{
 	"getSignerVerifierFromKey":     true, // validateKeyVal + ed25519 length checks in front of the sslib constructors (F15)
 	"validateKeyVal":               true,
 	"VerifyLinkSignatureThesholds": true, // a step without verified links fails (F14)
+	// the guard (validateKeyVal) parses PEM texts with decodeAndParse/parseKey, the protected sslib constructors with
+	// decodeAndParsePEM/parsePEMKey: proofs/NoPanicKeys.v assumes both look at the FIRST block with the same parsers
+	// in the same order (sslib_kind = pem_kind except for certificates); all four are hash-pinned
+	"decodeAndParse": true,
+	"parseKey":       true,
 }
 
 type psSite struct {
@@ -1366,7 +1371,7 @@ func psScanSSLib(repo string, c *psCtx) string {
 		return "module " + mod + "@" + ver + " not found in the module cache"
 	}
 	fset := token.NewFileSet()
-	for _, fn := range []string{"ecdsa.go", "ed25519.go", "rsa.go"} {
+	for _, fn := range []string{"ecdsa.go", "ed25519.go", "rsa.go", "utils.go"} {
 		f, err := parser.ParseFile(fset, filepath.Join(dir, fn), nil, 0)
 		if err != nil {
 			return "cannot parse " + fn
@@ -1377,7 +1382,8 @@ func psScanSSLib(repo string, c *psCtx) string {
 				continue
 			}
 			name := psFuncName(fd)
-			if !(strings.HasSuffix(name, "FromSSLibKey") || strings.HasSuffix(name, ".Sign") || strings.HasSuffix(name, ".Verify")) {
+			if !(strings.HasSuffix(name, "FromSSLibKey") || strings.HasSuffix(name, ".Sign") || strings.HasSuffix(name, ".Verify") ||
+				name == "decodeAndParsePEM" || name == "parsePEMKey") {
 				continue
 			}
 			okAssert := map[*ast.TypeAssertExpr]bool{}
